@@ -3,6 +3,7 @@ package g_disp
 import (
 	"strings"
 	"testing"
+	"time"
 
 	"pgregory.net/rapid"
 
@@ -34,9 +35,13 @@ func genC05(t *rapid.T) c05Case {
 		c.Where, c.Method = "exchange", []string{"s_exch", "s_exch_h"}[rapid.IntRange(0, 1).Draw(t, "em")]
 	default:
 		c.Where = "framework"
-		c.Framework = []string{"unknown_method", "version_mismatch", "max_response_bytes", "nil_result", "wrong_state", "bad_params"}[rapid.IntRange(0, 5).Draw(t, "fw")]
-		if c.Framework == "max_response_bytes" {
+		c.Framework = []string{"unknown_method", "version_mismatch", "max_response_bytes", "nil_result", "wrong_state", "bad_params", "session_lost", "draining", "draining"}[rapid.IntRange(0, 8).Draw(t, "fw")]
+		if c.Framework == "max_response_bytes" || c.Framework == "session_lost" || c.Framework == "draining" {
 			c.Transport = "http"
+		}
+		if c.Framework == "draining" {
+			// the handler gets the refusal from ctx.OpenSession and hands it back
+			c.Method = []string{"u_open", "s_open"}[rapid.IntRange(0, 1).Draw(t, "drainm")]
 		}
 	}
 	if c.Where != "framework" {
@@ -79,6 +84,13 @@ func (c c05Case) call() lib.CallSpec {
 		return lib.CallSpec{Kind: "stream", Method: "s_exch", CancelAt: -1, Stream: &lib.StreamScript{ID: id, InitOutcome: "wrongstate"}}
 	case "bad_params":
 		return lib.CallSpec{Kind: "unary", Method: "u_str", BadParams: "wrongtype", Unary: &lib.UnaryScript{ID: id, Outcome: "value"}}
+	case "session_lost":
+		return lib.CallSpec{Kind: "unary", Method: "u_str", Unary: &lib.UnaryScript{ID: id, Outcome: "value"}}
+	case "draining":
+		if c.Method == "s_open" {
+			return lib.CallSpec{Kind: "stream", Method: "s_open", CancelAt: -1, Ticks: 1, Stream: &lib.StreamScript{ID: id, InitOutcome: "ok"}}
+		}
+		return lib.CallSpec{Kind: "unary", Method: "u_open", Unary: &lib.UnaryScript{ID: id, Outcome: "value"}}
 	}
 	panic("c05 call")
 }
@@ -105,6 +117,16 @@ func (c c05Case) collectErrors(out *lib.Outcome) []lib.BatchM {
 		if c.Framework == "max_response_bytes" {
 			h.SetMaxResponseBytes(1000)
 		}
+		var hdr map[string]string
+		switch c.Framework {
+		case "session_lost":
+			h.EnableSticky(time.Minute)
+			hdr = map[string]string{"VGI-Session": "bm90LWEtc2Vzc2lvbi10b2tlbg"}
+		case "draining":
+			h.EnableSticky(time.Minute)
+			h.DrainHandle().Drain()
+			hdr = map[string]string{"VGI-Session-Accept": "true"}
+		}
 		req, _ := call.PipeBytes()
 		path := "/" + call.Method
 		if call.Kind == "unknown" {
@@ -113,7 +135,7 @@ func (c c05Case) collectErrors(out *lib.Outcome) []lib.BatchM {
 		if call.Kind == "stream" {
 			path += "/init"
 		}
-		resp := lib.PostArrow(h, path, req, nil)
+		resp := lib.PostArrow(h, path, req, hdr)
 		if resp.Panic != "" {
 			out.Violate("C05/http-panic", "ServeHTTP panicked: %s", lib.Short(resp.Panic, 300))
 			return nil
@@ -225,7 +247,8 @@ func runC05(c c05Case) (out lib.Outcome) {
 			out.Violate(key, "%s error produced in %s over %s has exception_type %q, expected %q%v", c.Err.Kind, c.Where, c.Transport, info.Type, want, alts)
 		}
 	} else {
-		want := map[string]string{"unknown_method": "AttributeError", "version_mismatch": "ProtocolVersionError", "bad_params": "TypeError"}[c.Framework]
+		want := map[string]string{"unknown_method": "AttributeError", "version_mismatch": "ProtocolVersionError", "bad_params": "TypeError",
+			"session_lost": "SessionLostError", "draining": "ServerDrainingError"}[c.Framework]
 		if want != "" && info.Type != want {
 			out.Violate(lib.Keyf("C05", "framework-type", c.Framework), "%s: exception_type %q, documented wire name %q", c.Framework, info.Type, want)
 		}
@@ -260,6 +283,14 @@ func runC05(c c05Case) (out lib.Outcome) {
 		if info.Kind != "MethodNotImplementedError" {
 			out.Violate("C05/error-kind", "unknown-method refusal has error_kind %q", info.Kind)
 		}
+	case c.Framework == "session_lost":
+		if info.Kind != "session_lost" {
+			out.Violate("C05/error-kind", "session-lost refusal has error_kind %q", info.Kind)
+		}
+	case c.Framework == "draining":
+		if info.Kind != "server_draining" {
+			out.Violate("C05/error-kind", "draining refusal has error_kind %q", info.Kind)
+		}
 	}
 	// --- debug details ---
 	hasDetails := info.Traceback != "" || len(info.Frames) > 0
@@ -274,11 +305,11 @@ func runC05(c c05Case) (out lib.Outcome) {
 
 var propC05 = lib.Prop[c05Case]{
 	ID: "C05",
-	Rule: "one failing call per case: error values (RpcError with any Type/Kind incl. exotic Type strings, plain, %w-wrapped RpcError/plain to depth 3, errors.Join, RpcError values that already carry a Traceback (as one relayed from an upstream call does), custom error types, kind-advertising custom error, panics with string/error/int/RpcError/runtime-error values) returned from unary handlers, stream init, producer turns and exchange turns, plus framework refusals (unknown method, protocol version, max_response_bytes, nil stream result, wrong state type, parameter mismatch), debug on/off, pipe and HTTP (following continuations); " +
+	Rule: "one failing call per case: error values (RpcError with any Type/Kind incl. exotic Type strings, plain, %w-wrapped RpcError/plain to depth 3, errors.Join, RpcError values that already carry a Traceback (as one relayed from an upstream call does), custom error types, kind-advertising custom error, panics with string/error/int/RpcError/runtime-error values) returned from unary handlers, stream init, producer turns and exchange turns, plus framework refusals (unknown method, protocol version, max_response_bytes, nil stream result, wrong state type, parameter mismatch, session lost, server draining as handed back by a unary / stream-init handler from ctx.OpenSession), debug on/off, pipe and HTTP (following continuations); " +
 		"oracle: exception_type is the RpcError's Type, the documented wire name of a typed framework error, else RuntimeError — never a Go type name; message carried; error_kind iff advertised; traceback/frames iff debug. Non-trivial: the error is not a bare RpcError.",
 	Gen:          genC05,
 	Run:          runC05,
-	Essential:    []string{"where:unary", "where:init", "where:produce", "where:exchange", "where:framework", "err:plain", "err:panic_str", "err:carries-own-traceback", "fw:max_response_bytes"},
+	Essential:    []string{"where:unary", "where:init", "where:produce", "where:exchange", "where:framework", "err:plain", "err:panic_str", "err:carries-own-traceback", "fw:max_response_bytes", "fw:session_lost", "fw:draining"},
 	EssentialMin: 300,
 }
 
